@@ -139,6 +139,22 @@ def dist_fn(name, event_shape=(), batch_shape=()):
     return PyFn(make, name)
 
 
+ARRAYS_ON_DEVICE = z3.Bool("arrays_are_jax_arrays")
+
+
+def install_array_kind_models(ip):
+    """A-ARRAYKIND: an opaque array value of a model graph may be a JAX array or a host (NumPy) array - both have the array methods (.sum, .shape, ...), only the
+    first is an instance of jax.Array / jnp.ndarray. The kind is ONE free boolean per path (all arrays of a path are of one kind), so a type test on an array value
+    forks the path once; python scalars are instances of neither."""
+    def is_jax(ip_, x):
+        if is_z3(x) and x.sort() == U:
+            return ARRAYS_ON_DEVICE
+        return False
+    for n in ("jax.Array", "jax.numpy.ndarray"):
+        ip.models.setdefault("isinstance:" + n, is_jax)
+    ip.models.setdefault("isinstance:numpy.ndarray", lambda ip_, x: z3.Not(ARRAYS_ON_DEVICE) if is_z3(x) and x.sort() == U else False)
+
+
 class G:
     """tiny DSL over the real constructors"""
 
@@ -146,6 +162,7 @@ class G:
         self.ip = ip
         self.Value, self.Calc, self.Var, self.Dist, self.TransientCalc = [ip.repo(f"{N}::{n}") for n in ("Value", "Calc", "Var", "Dist", "TransientCalc")]
         self.GB = ip.repo(f"{M}::GraphBuilder")
+        install_array_kind_models(ip)
 
     def val(self, name):
         return z3.Const(f"val_{name}", U)
